@@ -181,9 +181,23 @@ func codecCases(c *Ctx, im *Impl, cf *CaseFile) {
 		for _, p := range pool {
 			hs.add(p)
 		}
+		// a harness-held connection: everything the node sends to a remote name appears in wire
+		wire, _ := n.VerifAddConn("wire-peer", 1.0, 64)
+		rt := map[string]string{}
+		var remotes []string
+		for _, p := range pool {
+			if p != self && p != "" && !isAlias(p) {
+				rt[p] = "wire-peer"
+				remotes = append(remotes, p)
+			}
+		}
+		n.VerifSetRoutingTable(rt)
 		var ops []string
 		var encoded [][]byte
 		label := fmt.Sprintf("codec node=%q", self)
+		for k := 0; k < 5 && len(remotes) > 0; k++ { // SendMessageWithHopsToLive, with names that do not fit
+			ops = append(ops, sendOp(c, im, n, self, remotes[r.Intn(len(remotes))], wire, k)...)
+		}
 		for oi := 0; oi < nOps; oi++ {
 			switch k := r.Intn(10); {
 			case k < 2: // AddNameHash
@@ -332,4 +346,78 @@ func codecCases(c *Ctx, im *Impl, cf *CaseFile) {
 		peer.Shutdown()
 		cancel()
 	}
+}
+
+// overlong returns a service name of n bytes whose first 8 bytes are the given 8-byte name.
+func overlong(r *Rng, base string, n int) string {
+	b := []byte(base)
+	for len(b) < n {
+		b = append(b, "abcdefghijklmnopqrstuvwxyz-0123456789"[r.Intn(37)])
+	}
+	return string(b)
+}
+
+var overLens = []int{9, 10, 16, 255}
+
+// sendOp: one SendMessageWithHopsToLive on a node whose only connection is held by the harness.
+// Oracle: a service name longer than the 8-byte wire field is refused and nothing is sent.
+func sendOp(c *Ctx, im *Impl, n *netceptor.Netceptor, self, dst string, wire chan []byte, k int) []string {
+	r := c.Rng
+	fsvc, tsvc := genSvc(r), genSvc(r)
+	for !svcValid(fsvc) {
+		fsvc = genSvc(r)
+	}
+	switch k {
+	case 0: // destination name one byte too long, its first 8 bytes a plausible listener
+		tsvc = overlong(r, "abcdefgh", 9)
+	case 1:
+		tsvc = overlong(r, "abcdefgh", overLens[r.Intn(len(overLens))])
+	case 2: // source name too long
+		fsvc = overlong(r, "abcdefgh", overLens[r.Intn(len(overLens))])
+	case 3: // exactly fitting
+		tsvc = "abcdefgh"
+	}
+	h := byte(1 + r.Intn(255))
+	data := genPayload(r, 16384, false)
+	for len(wire) > 0 {
+		<-wire
+	}
+	err := n.SendMessageWithHopsToLive(fsvc, dst, tsvc, data, h)
+	var pkt []byte
+	select {
+	case pkt = <-wire:
+	case <-time.After(func() time.Duration {
+		if err != nil {
+			return 20 * time.Millisecond
+		}
+		return time.Second
+	}()):
+	}
+	long := len(fsvc) > 8 || len(tsvc) > 8
+	rec := map[string]interface{}{"node": self, "fsvc_hex": fmt.Sprintf("%x", fsvc), "to": dst, "tsvc_hex": fmt.Sprintf("%x", tsvc), "hops": h}
+	im.Count(fmt.Sprintf("send %q %x %q %x %d %x", self, fsvc, dst, tsvc, h, data), true)
+	if long {
+		im.Hist("codec:send-overlong-service")
+		if err == nil || pkt != nil {
+			what := "accepted"
+			if pkt != nil {
+				md, _ := n.VerifTranslateDataToMessage(pkt)
+				if md != nil {
+					what = fmt.Sprintf("sent as %q -> %q", md.FromService, md.ToService)
+				}
+			}
+			im.Violate(fmt.Sprintf("SendMessageWithHopsToLive with service names of %d and %d bytes is not refused (%s, err=%v): the 8-byte wire field cuts the name to another service's name", len(fsvc), len(tsvc), what, err),
+				"overlong-service-accepted", rec)
+		}
+	} else {
+		im.Hist("codec:send-fitting-service")
+		if err != nil || pkt == nil {
+			im.Violate(fmt.Sprintf("SendMessageWithHopsToLive with fitting service names fails or sends nothing (err=%v)", err), "codec-send-failed", rec)
+		}
+	}
+	obs := "None"
+	if pkt != nil {
+		obs = "(Some " + Hx(pkt) + ")"
+	}
+	return []string{fmt.Sprintf("WSend %s %s", coqMsg([]byte(self), []byte(fsvc), []byte(dst), []byte(tsvc), h, data), obs)}
 }
